@@ -9,4 +9,6 @@ import Pms.Props.C06
 #print axioms Pms.Dyn.C06_log_chi4
 #print axioms Pms.Dyn.C06_cage
 #print axioms Pms.Dyn.C06_wrapped_eq_unwrapped
+#print axioms Pms.Dyn.C06_sq4
+#print axioms Pms.Dyn.C06_sq4_lag
 #print axioms Pms.Dyn.C06_source_shape
